@@ -481,6 +481,33 @@ func (a *Activation) stdlibCall(st *State, callee *ssa.Function, cc *ssa.CallCom
 			}
 		}
 	}
+	// sync/atomic functions on plain integers (sequential model, like the typed values)
+	if strings.HasPrefix(name, "sync/atomic.") && len(args) >= 1 {
+		if pt, ok := callee.Signature.Params().At(0).Type().Underlying().(*types.Pointer); ok {
+			if _, isBasic := pt.Elem().Underlying().(*types.Basic); isBasic {
+				fn := strings.TrimPrefix(name, "sync/atomic.")
+				switch {
+				case strings.HasPrefix(fn, "Load"):
+					mark()
+					g.trusted["sync/atomic operations are modelled sequentially (no interference between the atomic steps of one function)"] = true
+					return Val{T: g.define("ald", g.load(st, args[0].T, pt.Elem()))}, true
+				case strings.HasPrefix(fn, "Store") && len(args) == 2:
+					mark()
+					g.trusted["sync/atomic operations are modelled sequentially (no interference between the atomic steps of one function)"] = true
+					a.frameCheck(st, args[0].T, pos)
+					g.store(st, args[0].T, pt.Elem(), args[1].T)
+					return Val{}, true
+				case strings.HasPrefix(fn, "Add") && len(args) == 2:
+					mark()
+					g.trusted["sync/atomic operations are modelled sequentially (no interference between the atomic steps of one function)"] = true
+					a.frameCheck(st, args[0].T, pos)
+					nv := g.define("aadd", bvop("bvadd", g.load(st, args[0].T, pt.Elem()), args[1].T))
+					g.store(st, args[0].T, pt.Elem(), nv)
+					return Val{T: nv}, true
+				}
+			}
+		}
+	}
 	// sync/atomic typed values
 	if strings.HasPrefix(name, "(*sync/atomic.") {
 		if v, ok := a.atomicCall(st, callee, name, args, resT); ok {
